@@ -281,7 +281,12 @@ def to_str(interp, v, node=None):
     if isinstance(v, VBool):
         return VStr(z3.If(v.z, z3.StringVal("True"), z3.StringVal("False")))
     if isinstance(v, VInt):
-        return VStr(int_to_str(v.z))
+        r = int_to_str(v.z)
+        if concrete_int(v.z) is None:
+            from . import strlib
+            # ground fact about str(int): an optional minus sign followed by decimal digits
+            interp.ctx.assume(z3.InRe(r, strlib.PLAIN_INT), "str(int):decimal-digits")
+        return VStr(r)
     if isinstance(v, VNone):
         return VStr("None")
     if isinstance(v, VOpt):
@@ -1282,6 +1287,9 @@ def isinstance_z(it, v, cls):
         h = it.reg.overrides.get(f"isinstance:{v.kind}")
         if h is not None:
             return h(it, v, short)
+        if it.spec:
+            # in contract clauses an opaque value is never one of the structurally modelled records
+            return F()
     if short == "object":
         return T()
     if isinstance(v, (VInt, VBool, VFloat, VStr, VTuple, VList, VDict, VSet, VNone, VByteArray)):
